@@ -369,3 +369,17 @@ Proof.
     cbn [fst] in HL. destruct (release_loop_bounds relq u validf _ _ _ _ _ E) as [_ [B _]]. lia.
   - intros j rs H. exact (release_log_bounded relq u validf _ 0 skel j rs H).
 Qed.
+
+(* consistent release files: validation succeeds on the first attempt, whatever skel held *)
+Lemma release_stage_first_attempt retries relq u ann validf skel :
+  disjoint_files relq -> (forall f, In f relq -> rel_definite u ann f) ->
+  (forall s, announced_rel ann relq s -> validf s = true) ->
+  exists rs s, release_stage retries relq (fun _ => u) validf skel = (1, Some (rs, s)) /\ announced_rel ann relq s.
+Proof.
+  intros Hd Hdef Hv. unfold release_stage.
+  destruct (Nat.max 1 retries) as [|t] eqn:Em; [lia|]. cbn [release_loop].
+  pose proof (round_determined u ann relq skel Hd Hdef) as R.
+  destruct (run_stage false relq u skel) as [rs s1]. destruct R as [R1 _].
+  assert (A : announced_rel ann relq (drop_unobtained relq rs s1)) by exact R1.
+  rewrite (Hv _ A). eexists _, _. split; [reflexivity|exact A].
+Qed.
